@@ -817,6 +817,9 @@ def run(res):
     res.cov['rule'] = ('curves: k_1 in (1,15] (real and integral), k_2 in {k_1, 2k_1-1, 25, inf, k_1+U(0,10)}, SD 10..800 (every 9th certificate curve SD = 0), ND 1e4..2e7, '
                        'TN in {1, U(1,20), U(1,3)}, TS in {1, U(1,3), TN^(1/k_1)}, native and target P_f in {0.5, 0.1, 0.9, U(0.001,0.999), 1e-6..1e-2, 1-1e-6..1-1e-2}; '
                        'loads/cycles exactly at the (transformed) knee, one ulp and 1e-12 relative either side, and up to a factor 5 / 1e3 away; '
+                       'broadcast: 11 layouts, plus frames of integral curves whose columns (k_1 always or never, k_2/SD/ND/TN/TS at random) are stored as int64, '
+                       'k_2 in {inf, integral, finite non-integral}, operands per curve at / below / above the knee, optionally a Miner variant applied to the frame; '
+                       'integer operand arrays int64/int32/uint64/uint32 on both branches for cycles and load; '
                        'non-trivial = distinct certificate inputs whose target P_f differs from the native one or whose load/cycle is off the knee, plus '
                        'relation inputs counted distinct by their input')
     proofs_ok = common.standard_proof_stage(res, 'C08', extra_targets=['theories/Common/Cert.vo', 'theories/Woehler/WCert.vo'],
